@@ -10,6 +10,7 @@ refs       = None | list of  [0, n]  (name)  |  [1, k]  (the k-th Variable objec
              the system; k >= 1000: a Variable that never belonged to it)  |  [2, j, ids]  (the
              MixedDimensionalVariable returned by op j, ids = its atomic variables).
 """
+import json
 import random
 from fractions import Fraction
 
@@ -36,6 +37,10 @@ THEOREMS = [
     "PorepyVerif.C05.set_frame",
     "PorepyVerif.C05.get_order_irrelevant",
     "PorepyVerif.C05.get_is_projection_of_global",
+    "PorepyVerif.C05.md_variable_spec",
+    "PorepyVerif.C05.set_then_get_op",
+    "PorepyVerif.C05.success_implies_clustered",
+    "PorepyVerif.C05.update_num_dofs_inv",
     "PorepyVerif.C05.remove_multi_eq_sequential",
     "PorepyVerif.C05.set_bad_indices",
     "PorepyVerif.C05.get_bad_indices",
@@ -54,6 +59,9 @@ RULE = ("histories of 1-25 (thorough: 1-40) EquationSystem calls on md-grids wit
         "sizes) is compared, together with dofs_of of every variable and identify_dof of every index in [-1, num_dofs]. "
         "Well-formed removals are stratified: one variable; several Variables in one call in ascending, descending and "
         "shuffled block order; one name; several names; md-variables; everything (None); name+Variable mixtures. "
+        "Further strata: the very same call repeated, md_variable(name, domains) incl. unknown names / empty domain lists, "
+        "regrid (entity counts of the grids change, then update_variable_num_dofs), zero-dof creates, one-grid and empty grid lists, "
+        "grid lists not in md order, refs with duplicates / empty refs (counts in input_distribution.strata). "
         "non-trivial = at least two creates, one remove that succeeds, and one set/get pair; distinct = distinct histories")
 TRUSTED = [
     "modelled, not verified: python dict insertion order = the lists of the model; numpy slicing/concatenate/cumsum/argmax/sort "
@@ -74,7 +82,10 @@ EXPLANATION = ("FULL: the model is the state machine (_variables, _variable_numb
                "values (overwrite and additive) in global order without touching other variables; get(subset) = projection_to(subset) x "
                "get(all); removing several variables in one call equals removing them one at a time in any order and leaves the "
                "canonical clustering of the rest; reads/writes with inadmissible indices (both given, none, negative) raise "
-               "ValueError (or do nothing when no registered variable is addressed) and never change the state.")
+               "ValueError (or do nothing when no registered variable is addressed) and never change the state. Neighbouring entry points: "
+               "update_variable_num_dofs after the grids changed size re-establishes the invariant for the new grid; md_variable(name[, "
+               "domains]) wraps exactly the variables the name denotes; every create/remove call that returns leaves a clustered layout "
+               "whatever happened before; the set/get round trip is proved through the public argument forms (names, Variables, md).")
 ASSUMPTIONS = [
     "values are dyadic rationals of small magnitude, so binary64 addition in additive writes is exact",
     "cluster order and storage-key uniqueness are proved for histories whose create calls name grids of the md-grid without "
@@ -135,6 +146,7 @@ class World:
         import porepy as pp
         import scipy.sparse as sps
         gs = case["grids"]
+        self.spec = [dict(g) for g in gs]
         self.objs = [None] * len(gs)
         for k in sorted(range(len(gs)), key=lambda k: gs[k]["rank"]):
             g = gs[k]
@@ -225,8 +237,24 @@ class World:
                 return _proj_canon(es.projection_to(self.refs(op["refs"])))
             if kind == "num_dofs":
                 return {"num": es.num_dofs()}
+            if kind == "md_variable":
+                doms = None if op.get("domains") is None else [self.objs[k] for k in op["domains"]]
+                md = es.md_variable(f"v{op['name']}", doms)
+                self.md[j] = md
+                return {"ids": [self.vidx(v) for v in md.sub_vars]}
+            if kind == "regrid":
+                # the grids change their entity counts (as after a refinement that keeps the md-grid listing)
+                for k, n in op["n"]:
+                    self.spec[k] = dict(self.spec[k], n=n)
+                    c, f, nn = _entity_counts(self.spec[k])
+                    g = self.objs[k]
+                    g.num_cells = c
+                    if self.spec[k]["kind"] == "sub":
+                        g.num_faces, g.num_nodes = f, nn
+                es.update_variable_num_dofs()
+                return "ok"
             raise RuntimeError(f"unknown op {kind}")
-        except (ValueError, KeyError, AssertionError, IndexError, TypeError) as e:
+        except Exception as e:  # whatever the real code raises is an observable answer, never a harness crash
             return err_kind(e)
 
     def dump(self):
@@ -265,13 +293,14 @@ def _proj_canon(P):
     return {"rows": rows, "cols": cols, "triplets": [[int(a), int(b), frac(c)] for a, b, c in trip]}
 
 
-LAYOUT_OPS = ("create", "remove")
+LAYOUT_OPS = ("create", "remove", "regrid")
 
 
 # ----------------------------------------------------------------------------- the three harness entry points
 def impl_run(case):
     w = World(case)
-    out = []
+    listing = w.mdg.subdomains() + w.mdg.interfaces()
+    out = [{"order_nodup": len({id(g) for g in listing}) == len(listing)}]  # hypothesis `e.order.Nodup`, evaluated by the driver
     last = len(case["ops"]) - 1
     for j, op in enumerate(case["ops"]):
         out.append(w.apply(j, op))
@@ -300,9 +329,16 @@ def model_ops(case):
     row = lambda k: [k] + list(_entity_counts(gs[k]))
     ops = [{"op": "init", "subs": [row(k) for k in subs], "intfs": [row(k) for k in intfs]}]
     last = len(case["ops"]) - 1
+    spec = [dict(g) for g in gs]
     for j, op in enumerate(case["ops"]):
         m = dict(op)
         m.pop("stratum", None)
+        m.pop("repeat", None)
+        if m["op"] == "regrid":
+            for k, n in m["n"]:
+                spec[k] = dict(spec[k], n=n)
+            m = {"op": "regrid", "subs": [[k] + list(_entity_counts(spec[k])) for k in subs],
+                 "intfs": [[k] + list(_entity_counts(spec[k])) for k in intfs]}
         if "refs" in m:
             m["refs"] = _mrefs(m["refs"])
         if m["op"] == "create" and m["dof"] is None:
@@ -316,7 +352,7 @@ def model_ops(case):
 
 
 def model_decode(outs, case):
-    return outs[1:]
+    return outs
 
 
 def compare(impl, model, case):
@@ -445,6 +481,7 @@ def oracle(case):
     rng = random.Random(repr(case["ops"])[:200] + str(len(case["ops"])))
     ngrids = len(case["grids"])
     clustered = True
+    dup_create_seen = False
     r = _guard(_check_layout, "initially", w, case, clustered, "initially")
     if r:
         return r
@@ -473,6 +510,19 @@ def oracle(case):
                 return {"what": f"{tag}: after removing variables {op['refs']} the registered variables / their block order are "
                                 f"{[w.index_of.get(i) for i in sorted(es._variables, key=lambda i: es._variable_numbers.get(i, -1))]}, expected {[w.index_of.get(i) for i in rm[1]]}",
                         "key": "remove-wrong-result"}
+        if kind == "create" and any((op.get(k) or []).count(g) > 1 for k in ("subs", "intfs") for g in (op.get(k) or [])):
+            dup_create_seen = True
+        if not dup_create_seen and len({(v.name, id(v.domain)) for v in es._variables.values()}) != len(es._variables):
+            return {"what": f"{tag}: two registered variables share name and domain although no create call repeated a grid", "key": "aliased-variables"}
+        if kind == "regrid" and ans != "ok":
+            return {"what": f"{tag}: update_variable_num_dofs raised {ans} after the grids changed their entity counts", "key": "update-num-dofs-raises"}
+        if kind == "md_variable" and isinstance(ans, dict) and "ids" in ans:
+            doms = None if op.get("domains") is None else [w.objs[k] for k in op["domains"]]
+            want = [w.vidx(v) for v in es._variables.values() if v.name == f"v{op['name']}" and (doms is None or any(v.domain is d for d in doms))]
+            if ans["ids"] != want:
+                return {"what": f"{tag}: md_variable wraps variables {ans['ids']}, the registered variables of that name (on those domains) are {want}", "key": "md-variable-wrong-members"}
+            if want and [int(i) for i in es.dofs_of([w.md[j]])] != [int(i) for v in es._variables.values() if w.vidx(v) in want for i in es.dofs_of([v])]:
+                return {"what": f"{tag}: dofs_of(md_variable) differs from the concatenated blocks of its members", "key": "md-variable-dofs"}
         if kind == "create" and (op.get("subs") is None) != (op.get("intfs") is None):
             gl = op["subs"] if op.get("subs") is not None else op["intfs"]
             want_kind = "sub" if op.get("subs") is not None else "intf"
@@ -602,10 +652,18 @@ class _Sim:
     """Just enough bookkeeping to generate mostly well-formed calls (not used for any verdict)."""
 
     def __init__(self, grids):
-        self.grids = grids
+        self.grids0 = [dict(g) for g in grids]
+        self.grids = [dict(g) for g in grids]
         self.vars = []      # dicts: idx name grid size alive
         self.creates = []   # (op index, ids) of successful creates
         self.stored = {}    # (name, grid, slotkind, i) -> length of the stored array (None: unknown)
+        self.aliased = False
+
+    def regrid(self, changes):
+        for k, n in changes:
+            self.grids[k] = dict(self.grids[k], n=n)
+        for v in self.vars:
+            v["size"] = self.size(v["grid"], v["dof"], v["as_sub"])
 
     def good(self, v, key):
         """the storage of variable v holds an array of v's size at the slot `key`"""
@@ -644,7 +702,10 @@ class _Sim:
             if not (0 <= g < len(self.grids) and self.grids[g]["kind"] == ("sub" if as_sub else "intf")):
                 return
             ids.append(len(self.vars))
-            self.vars.append({"idx": len(self.vars), "name": op["name"], "grid": g, "size": self.size(g, dof, as_sub), "alive": True})
+            self.vars.append({"idx": len(self.vars), "name": op["name"], "grid": g, "size": self.size(g, dof, as_sub), "alive": True,
+                              "dof": dof, "as_sub": as_sub})
+            if gl.count(g) > 1:
+                self.aliased = True
         if len(set(gl)) == len(gl):
             self.creates.append((j, ids))
 
@@ -838,7 +899,7 @@ def gen_case(rng, tier):
                 elif b < 0.9:
                     op["dof"] = (op["dof"] or []) + [[3, 1]]
                 # else: whatever name/grid collision the random choice produced
-            sim.create(j, op)
+            sim.create(len(ops), op)
             ops.append(op)
         elif t < 0.45:
             if bad:
@@ -910,11 +971,38 @@ def gen_case(rng, tier):
             n = sum(v["size"] for v in sim.alive())
             d = rng.choice([-1, n, n + 2, -5]) if bad or n == 0 else rng.randrange(n)
             ops.append({"op": "identify", "dof": d})
-        elif t < 0.97:
+        elif t < 0.94:
             ops.append({"op": "projection", "refs": _gen_refs(rng, sim, bad)})
+        elif t < 0.965 and not sim.aliased:
+            # md_variable(name[, domains]): known / unknown names, all / some / no domains
+            name = rng.choice([v["name"] for v in sim.alive()] + [rng.randrange(6)])
+            doms = None if rng.random() < 0.5 else rng.sample(range(len(grids)), rng.randint(0, len(grids)))
+            op = {"op": "md_variable", "name": name, "domains": doms}
+            ids = [v["idx"] for v in sim.alive() if v["name"] == name and (doms is None or v["grid"] in doms)]
+            kinds = {v["as_sub"] for v in sim.alive() if v["name"] == name}
+            if ids and (doms is not None or len(kinds) == 1):
+                sim.creates.append((len(ops), ids))
+            ops.append(op)
+        elif t < 0.985:
+            # the grids are refined / coarsened, then update_variable_num_dofs()
+            ks = rng.sample(range(len(grids)), rng.randint(1, len(grids)))
+            changes = [[k, rng.choice([1, 2, 3, 4])] for k in ks if not (grids[k]["dim"] == 0 and grids[k]["kind"] == "sub")]
+            sim.regrid(changes)
+            ops.append({"op": "regrid", "n": changes})
         else:
             ops.append({"op": "num_dofs"})
-    return {"grids": grids, "ops": ops}
+        if rng.random() < 0.05 and ops[-1]["op"] not in ("regrid", "md_variable"):
+            # repeated operation: the very same call once more (second create -> KeyError, second additive write adds again, ...)
+            rep = json.loads(json.dumps(ops[-1]))
+            rep["repeat"] = True
+            if rep["op"] == "create":
+                sim.create(len(ops), rep)
+            elif rep["op"] == "remove":
+                sim.remove(rep["refs"])
+            elif rep["op"] == "set":
+                sim.note_set(rep, sim.resolve(rep["refs"]))
+            ops.append(rep)
+    return {"grids": sim.grids0, "ops": ops}
 
 
 # ----------------------------------------------------------------------------- evidence helpers
@@ -936,6 +1024,13 @@ def shrink_candidates(case):
                 yield dict(case, ops=ops[:i] + [dict(op, refs=op["refs"][:k] + op["refs"][k + 1:])] + ops[i + 1:])
 
 
+def _unsorted(case, op):
+    subs, intfs = expected_order(case)
+    pos = {k: i for i, k in enumerate(subs + intfs)}
+    gl = [pos[g] for g in (op.get("subs") or op.get("intfs") or []) if g in pos]
+    return gl != sorted(gl)
+
+
 def stats(cases, impl_outs):
     from collections import Counter
     kinds = Counter(o["op"] for c in cases for o in c["ops"])
@@ -945,7 +1040,7 @@ def stats(cases, impl_outs):
     for c, out in zip(cases, impl_outs):
         if not isinstance(out, list):
             continue
-        k = 0
+        k = 1
         for j, op in enumerate(c["ops"]):
             if k < len(out) and not (isinstance(out[k], dict) and "err" in out[k]):
                 ok[op["op"] + ("_additive" if op.get("additive") else "")] += 1
@@ -961,5 +1056,17 @@ def stats(cases, impl_outs):
             "max_num_dofs": maxdofs, "history_length": dict(Counter(min(len(c["ops"]) // 5 * 5, 40) for c in cases)),
             "subdomains": dict(Counter(sum(1 for g in c["grids"] if g["kind"] == "sub") for c in cases)),
             "interfaces": dict(Counter(sum(1 for g in c["grids"] if g["kind"] == "intf") for c in cases)),
+            "strata": {
+                "repeated_calls": sum(1 for c in cases for o in c["ops"] if o.get("repeat")),
+                "regrid_calls": kinds.get("regrid", 0), "md_variable_calls": kinds.get("md_variable", 0),
+                "creates_zero_dofs": sum(1 for c in cases for o in c["ops"] if o["op"] == "create" and not any(m for _, m in (o["dof"] if o["dof"] is not None else [[0, 1]]))),
+                "creates_on_one_grid": sum(1 for c in cases for o in c["ops"] if o["op"] == "create" and len(o.get("subs") or o.get("intfs") or []) == 1),
+                "creates_on_empty_list": sum(1 for c in cases for o in c["ops"] if o["op"] == "create" and (o.get("subs") == [] or o.get("intfs") == [])),
+                "creates_grids_not_in_md_order": sum(1 for c in cases for o in c["ops"] if o["op"] == "create" and _unsorted(c, o)),
+                "single_dof_blocks_observed": sum(1 for out in impl_outs if isinstance(out, list) for o in out if isinstance(o, dict) and "sizes" in o for x in o["sizes"] if x == 1),
+                "cases_with_one_grid": sum(1 for c in cases if len(c["grids"]) == 1),
+                "refs_with_duplicates": sum(1 for c in cases for o in c["ops"] if o.get("refs") and len({json.dumps(r) for r in o["refs"]}) < len(o["refs"])),
+                "empty_refs": sum(1 for c in cases for o in c["ops"] if o.get("refs") == []),
+            },
             "removal_strata": dict(Counter(o.get("stratum", "?") for c in cases for o in c["ops"] if o["op"] == "remove")),
             "additive_sets": sum(1 for c in cases for o in c["ops"] if o["op"] == "set" and o["additive"])}
